@@ -116,6 +116,21 @@ def optObj (j : Json) (k : String) (f : Json → Except String α) : Except Stri
   | none => pure none
   | some v => do pure (some (← f v))
 
+/-- the faults injected into one run of the nodeclaim.disruption controller: `{"drift": kind, "poolGet": kind,
+    "patch": kind}`, each kind a string ("" / absent = no fault; the kinds of one position behave alike for the
+    persisted condition: drift ∈ isDrifted | notFound | instanceTypes, poolGet ∈ error, patch ∈ conflict | notFound | error) -/
+def parseFaults (j : Json) (k : String) : Except String RFaults :=
+  match fldOpt j k with
+  | none => pure {}
+  | some v => do
+    let drift ← strD v "drift"
+    let poolGet ← strD v "poolGet"
+    let patch ← strD v "patch"
+    if !["", "isDrifted", "notFound", "instanceTypes"].contains drift then throw s!"bad drift fault {drift}"
+    if !["", "error"].contains poolGet then throw s!"bad poolGet fault {poolGet}"
+    if !["", "conflict", "notFound", "error"].contains patch then throw s!"bad patch fault {patch}"
+    pure { drift := drift != "", poolGet := poolGet != "", patch := patch != "" }
+
 def parseWorld (j : Json) : Except String World := do
   pure { now := ← intF j "now", batchMax := ← intF j "batchMax",
          claim := ← optObj j "claim" parseClaim, node := ← optObj j "node" parseNode,
@@ -139,9 +154,9 @@ def verdictStr : CandVerdict → String
 
 def okBlocked (b : Bool) : String := if b then "ok" else "blocked"
 
-/-- the world after the optional run of the nodeclaim.disruption controller -/
-def applyReconcile (w : World) (reconcile : Bool) : World :=
-  if reconcile then { w with claim := w.claim.map (fun c => reconcileClaim w.pool c w.now) } else w
+/-- the world after the optional run of the nodeclaim.disruption controller (with the faults of that run) -/
+def applyReconcile (w : World) (reconcile : Bool) (f : RFaults) : World :=
+  if reconcile then { w with claim := w.claim.map (fun c => reconcileClaimF f w.pool c w.now) } else w
 
 def modelOut (w : World) : Json :=
   let sn := stateNode w
@@ -214,17 +229,24 @@ where
 def candidate (inp impl : Json) : Except String Resp := do
   let w0 ← parseWorld inp
   let reconcile ← boolD inp "reconcile" false
-  let w := applyReconcile w0 reconcile
-  let mut bad ← specViolations w impl
+  let faults ← parseFaults inp "rfault"
+  let w := applyReconcile w0 reconcile faults
+  -- the property on what the implementation selected, in the world the SPECIFICATION says the controller leaves
+  -- behind (the specification's own reading of the run: `afterController`), not the model's
+  let wSpec : World :=
+    if reconcile then
+      { w0 with claim := w0.claim.map (fun c => Karp.Spec.ProtectedHistory.afterController faults w0.pool c w0.now) }
+    else w0
+  let mut bad ← specViolations wSpec impl
   -- "Consolidatable (consolidateAfter elapsed since the last pod event)": when the real controller has just
-  -- maintained the condition, True is only allowed if the window has elapsed
+  -- maintained the condition, True is only allowed if the window has elapsed (and a stale True must have been
+  -- withdrawn) — unless the controller had no say in that run (pool unreadable / status write refused)
   if reconcile then
     match w0.claim with
     | some c =>
-      let ran := !c.deleting && c.md.pool == .this && w0.pool.present
-      if ran && !w0.pool.static && (← strD impl "consolidatable") == "True"
-          && !Karp.Spec.Protected.mayBeConsolidatable w0.pool c w0.now then
-        bad := bad ++ ["consolidatable: the nodeclaim.disruption controller set Consolidatable=True although consolidateAfter has not elapsed since the last pod event (or the NodeClaim is not initialized / consolidation is disabled)"]
+      let got ← parseCond (← strD impl "consolidatable")
+      if !Karp.Spec.Protected.conditionAcceptable faults w0.pool c w0.now got then
+        bad := bad ++ [s!"consolidatable: after the run of the nodeclaim.disruption controller (drift check failed={faults.drift}) the NodeClaim is Consolidatable=True although consolidateAfter has not elapsed since the last pod event (or the NodeClaim is not initialized / consolidation is disabled / the controller must not touch it)"]
     | none => pure ()
   pure { model := some (modelOut w), spec := some bad.isEmpty, why := "; ".intercalate bad }
 
@@ -239,7 +261,7 @@ def parseEv (j : Json) : Except String Ev := do
   | "unmark" => pure .unmark
   | "nominate" => pure .nominate
   | "podEvent" => pure .podEvent
-  | "reconcile" => pure .reconcile
+  | "reconcile" => pure (.reconcile (← parseFaults j "f"))
   | k => throw s!"bad event {k}"
 
 open Karp.Spec.ProtectedHistory in
@@ -316,13 +338,15 @@ def consolidatableOp (inp impl : Json) : Except String Resp := do
   let now ← intF inp "now"
   let pool ← parsePool (← fld inp "pool")
   let c ← parseClaim (← fld inp "claim")
-  let after := reconcileClaim pool c now
+  let faults ← parseFaults inp "fault"
+  let after := reconcileClaimF faults pool c now
   let got ← strD impl "consolidatable"
-  -- safety: True may only be the result when the window has elapsed (or the controller had no say and it was True before)
-  let ran := !c.deleting && c.md.pool == .this && pool.present && !pool.static
+  -- safety: True may only be the result when the window has elapsed (or the controller had no say — NodeClaim it must
+  -- not touch, pool unreadable, status write refused — and it was True before); a failing drift check is no excuse
+  let ran := controllerActs faults pool c
   let bad :=
     if got == "True" && ran && !mayBeConsolidatable pool c now then
-      ["Consolidatable=True although consolidateAfter has not elapsed since the last pod event / the NodeClaim is not initialized / consolidation is disabled"]
+      [s!"Consolidatable=True after the run (drift check failed={faults.drift}) although consolidateAfter has not elapsed since the last pod event / the NodeClaim is not initialized / consolidation is disabled"]
     else if got == "True" && !ran && c.consolidatable != .true_ then
       ["Consolidatable=True appeared on a NodeClaim the sub-reconciler must not touch"]
     else []
